@@ -36,7 +36,9 @@ def t_increments(times, tag="i"):
 
 
 def node(c):
-    return c.e if isinstance(c, Sym) else t_const(c)
+    """trace node of a cell, modulo the equalities the current execution path has decided (pvx.sym.canon)"""
+    from pvx.sym import canon
+    return canon(c.e if isinstance(c, Sym) else t_const(c))
 
 
 def same_rows(a, b):
@@ -347,16 +349,30 @@ def _methods(ctx, py, wa):
             with tdomain(py, extra=[(S.Integrator, dict(INITIAL_SIZE=2))]):
                 _scenario(py, wa, n_pre, out)
             return out
-        paths = explore(body, max_paths=64)
+        paths = explore(body, max_paths=48, on_budget="stop")
         ctx.paths += len(paths)
+        if len(paths) == 1:
+            for (name, kind, ok, backend, detail, native) in paths[0][1]:
+                ctx.ob("C02.%s.%s.n%d" % (tag, name, n_pre), kind, ok, backend, time.time() - t0, detail,
+                       cex=None if ok else dict(n_pre=n_pre), native=None if ok else (native() if native else None))
+            continue
+        # a data-dependent branch inside a method: the contract must hold on every path; DAG identities are taken modulo
+        # the equalities the path decided (pvx.sym.canon).  One obligation per clause, failed if it fails on some path.
+        agg = {}
         for k, (pa, obs) in enumerate(paths):
-            sfx = "" if len(paths) == 1 else ".path%d" % k
             for (name, kind, ok, backend, detail, native) in obs:
-                if len(paths) > 1:
-                    detail = detail + " | path condition: %s" % [("%r" % (c,))[:80] + ("" if d else " is False") for c, d in pa.conds]
-                ctx.ob("C02.%s.%s.n%d%s" % (tag, name, n_pre, sfx), kind, ok, backend, time.time() - t0, detail,
-                       cex=None if ok else dict(n_pre=n_pre, path=[bool(d) for d in pa.decisions]),
-                       native=None if ok else (native() if native else None))
+                cur = agg.get(name)
+                if cur is None or (cur[2] and not ok):
+                    cond = [("%r" % (c,))[:90] + ("" if d else " is False") for c, d in pa.conds]
+                    agg[name] = (name, kind, ok, backend, detail + (" | fails on the path: %s" % cond[:6] if not ok else ""), native, k, [bool(d) for d in pa.decisions])
+        any_failed = False
+        for name, (name, kind, ok, backend, detail, native, k, dec) in agg.items():
+            any_failed = any_failed or not ok
+            ctx.ob("C02.%s.%s.n%d" % (tag, name, n_pre), kind, ok, backend, time.time() - t0, detail + " [%d paths]" % len(paths),
+                   cex=None if ok else dict(n_pre=n_pre, path=dec, path_index=k), native=None if ok else (native() if native else None))
+        if getattr(paths, "truncated", False) and not any_failed:
+            ctx.ob("C02.%s.paths_exhausted.n%d" % (tag, n_pre), "guard", None, "path-enumeration", 0.0,
+                   "the methods branch on data: %d paths run, path budget exhausted before all were explored" % len(paths))
 
 
 def _scenario(py, wa, n_pre, out):
